@@ -571,7 +571,7 @@ def _truth(v):
                 return None
         # an indexed child is taken to be present (the all-non-None case)
         if op in ("Is", "IsNot") and right == ("const", None) \
-                and left[0] == "index" and left[1][0] == "field":
+                and left[0] in ("index", "elem") and left[1][0] == "field":
             return op == "IsNot"
     return None
 
